@@ -34,6 +34,8 @@ type Dict interface {
 	Dec(c *boc.Cell) (Dict, error)
 	// Build: a dictionary made by the library's constructor from key and value lists in the order given
 	Build(pairs [][2]string) (Dict, error)
+	// DecInto decodes a cell INTO this object (a reused variable): afterwards it holds what the cell denotes, nothing of before
+	DecInto(c *boc.Cell) error
 	// Cols: Keys() and Values() of the dictionary
 	Cols() (keys, vals []string, err error)
 	// JSON: json.Marshal of the dictionary (HashmapE.MarshalJSON)
@@ -178,6 +180,10 @@ func (d *gd[K]) Plain(root *boc.Cell) ([][2]string, []string, []string, []byte, 
 	}
 	js, err := json.Marshal(hm)
 	return items, keys, vals, js, err
+}
+func (d *gd[K]) DecInto(c *boc.Cell) error {
+	c.ResetCounters()
+	return tlb.Unmarshal(c, &d.m)
 }
 func (d *gd[K]) Dec(c *boc.Cell) (Dict, error) {
 	n := &gd[K]{}
@@ -423,6 +429,53 @@ func (r *rec) load(bocHex string) bool {
 	}
 	r.w.Emit(ev.M{"k": "Load", "err": "", "boc": bocHex, "items": items})
 	return true
+}
+
+// loadInto decodes a bag into the dictionary object in use (not a fresh one): a Load event like any other - what the object
+// held before must not show through.
+func (r *rec) loadInto(bocHex string) bool {
+	var items [][2]string
+	err := safely(func() error {
+		b, e := hex.DecodeString(bocHex)
+		if e != nil {
+			return e
+		}
+		roots, e := boc.DeserializeBoc(b)
+		if e != nil {
+			return e
+		}
+		if e := r.d.DecInto(roots[0]); e != nil {
+			return e
+		}
+		r.last = roots[0]
+		items, e = r.d.Items()
+		return e
+	})
+	if err != nil {
+		r.w.Emit(ev.M{"k": "Load", "err": "e", "msg": err.Error(), "boc": bocHex, "items": [][2]string{}, "into": true})
+		return false
+	}
+	r.w.Emit(ev.M{"k": "Load", "err": "", "boc": bocHex, "items": items, "into": true})
+	return true
+}
+
+// bocOf: a dictionary of the given pairs, encoded by the library into a bag (hex).
+func bocOf(kind string, n int, pairs [][2]string) (string, error) {
+	d := New(kind, n)
+	for _, p := range pairs {
+		if err := d.Put(p[0], p[1]); err != nil {
+			return "", err
+		}
+	}
+	c, err := d.Enc()
+	if err != nil {
+		return "", err
+	}
+	b, err := c.ToBoc()
+	if err != nil {
+		return "", err
+	}
+	return hex.EncodeToString(b), nil
 }
 
 func sameSet(a, b [][2]string) bool {
@@ -869,14 +922,22 @@ func Drive(w *ev.Writer, o Opts) {
 				r.put(keys[0], randBits(rng, 32))
 			}
 			extra := []string{fixKey(kind, randBits(rng, n)), strings.Repeat("1", n), strings.Repeat("0", n)}
+			if n >= 8 && kind != "a" { // twins: two keys that differ in their last bit only (sibling leaves under one fork)
+				tw := randBits(rng, n)[:n-1]
+				extra = append(extra, tw+"0", tw+"1")
+			}
 			if kind == "a" { // the extreme workchains of an address key: -128 and 127
 				tail := randBits(rng, n-32)
 				extra = append(extra, strings.Repeat("1", 25)+strings.Repeat("0", 7)+tail, strings.Repeat("0", 25)+strings.Repeat("1", 7)+tail)
 			} else if n >= 2 { // the minimum / maximum of a signed key, the top-bit boundary of an unsigned one
 				extra = append(extra, "1"+strings.Repeat("0", n-1), "0"+strings.Repeat("1", n-1))
 			}
-			for _, nk := range extra {
-				if !r.put(nk, randBits(rng, 32)) {
+			for i, nk := range extra {
+				val := randBits(rng, 32)
+				if n >= 8 && kind != "a" && i >= len(extra)-2 {
+					val = val[:31] + "0" // the twins carry the same kind of value ("no account" where values are read as accounts)
+				}
+				if !r.put(nk, val) {
 					break
 				}
 			}
@@ -884,6 +945,18 @@ func Drive(w *ev.Writer, o Opts) {
 			if r.enc() && r.enc() { // twice: the second encoding is of the dictionary the first one left in memory
 				if r.dec() {
 					r.observe(true)
+				}
+			}
+			// a reused variable: another dictionary, then the EMPTY dictionary, decoded into the object that holds this one
+			if len(keys) > 0 {
+				other := [][2]string{{keys[0], randBits(rng, 32)}}
+				if hb, err := bocOf(kind, n, other); err == nil && r.loadInto(hb) {
+					r.get(keys[0])
+					if he, err := bocOf(kind, n, nil); err == nil && r.loadInto(he) {
+						r.get(keys[0])
+						r.put(keys[0], pairs[keys[0]])
+						r.enc()
+					}
 				}
 			}
 			orders(r, w, rng, kind, n, keys, pairs)
